@@ -268,6 +268,7 @@ impl ty::TyModule {
     /// This function checks the cache for a typed module corresponding to the given source ID.
     /// If found and up to date, it returns the cached module. Otherwise, it returns None.
     fn get_cached_ty_module_if_up_to_date(
+        handler: &Handler,
         source_id: Option<&SourceId>,
         engines: &Engines,
         build_config: Option<&BuildConfig>,
@@ -291,6 +292,17 @@ impl ty::TyModule {
 
                 // Return the cached module if it's up to date, otherwise None
                 if is_up_to_date {
+                    // The module is not type-checked again: report what type-checking it reported.
+                    let (errors, warnings, infos) = typed.diagnostics.clone();
+                    for warning in warnings {
+                        handler.emit_warn(warning);
+                    }
+                    for error in errors {
+                        handler.emit_err(error);
+                    }
+                    for info in infos {
+                        handler.emit_info(info);
+                    }
                     Some((typed.module.clone(), typed.namespace_module.clone()))
                 } else {
                     None
@@ -322,6 +334,7 @@ impl ty::TyModule {
         // Try to get the cached root module if it's up to date
         if let Some((ty_module, _namespace_module)) =
             ty::TyModule::get_cached_ty_module_if_up_to_date(
+                handler,
                 parsed.span.source_id(),
                 engines,
                 build_config,
@@ -329,6 +342,7 @@ impl ty::TyModule {
         {
             return Ok(ty_module);
         }
+        let diagnostics_mark = handler.mark();
 
         // Type-check submodules first in order of evaluation previously computed by the dependency graph.
         let submodules_res = module_eval_order
@@ -341,6 +355,7 @@ impl ty::TyModule {
 
                 // Try to get the cached submodule
                 if let Some(cached_module) = ty::TyModule::get_cached_ty_module_if_up_to_date(
+                    handler,
                     submodule.module.span.source_id(),
                     engines,
                     build_config,
@@ -491,6 +506,7 @@ impl ty::TyModule {
                     module: ty_module.clone(),
                     namespace_module: Arc::new(ctx.namespace().current_module().clone()),
                     version,
+                    diagnostics: handler.diagnostics_since(diagnostics_mark),
                 },
             );
         }
